@@ -61,7 +61,7 @@ enum {
     OP_FD_OPEN, OP_FD_WRITE, OP_FD_CLOSE, OP_FD_REG, OP_FD_DEREG, OP_TMR_REG, OP_TMR_DEREG, OP_SGN_REG, OP_SGN_DEREG, OP_RAISE,
     OP_PATH_REG, OP_PATH_DEREG, OP_TOUCH, OP_PID_REG, OP_PID_DEREG, OP_CHILD_SPAWN, OP_CHILD_KILL, OP_TASK_REG, OP_TASK_DEREG,
     OP_THRESH_REG, OP_THRESH_DEREG, OP_SRCLEN, OP_MSTATS, OP_LOOKUP, OP_EVT_RETAIN, OP_EVT_RELEASE, OP_EVT_CHECK, OP_MOD_REF, OP_MOD_UNREF,
-    OP_SLEEP, OP_ERRNO, OP_QUIESCE, OP_MOD_LOG, OP_MOD_DUMP, OP_NAMEOF, OP_MAX
+    OP_SLEEP, OP_ERRNO, OP_QUIESCE, OP_MOD_LOG, OP_MOD_DUMP, OP_NAMEOF, OP_FD_HUP, OP_OBS_DROP_KEEP, OP_MAX
 };
 static const char *opnames[OP_MAX] = {
     "none", "ctx_register", "ctx_deregister", "ctx_loop", "ctx_dispatch", "ctx_dispatch_until", "ctx_quit", "ctx_finalize",
@@ -71,7 +71,7 @@ static const char *opnames[OP_MAX] = {
     "fd_open", "fd_write", "fd_close", "fd_reg", "fd_dereg", "tmr_reg", "tmr_dereg", "sgn_reg", "sgn_dereg", "raise",
     "path_reg", "path_dereg", "touch", "pid_reg", "pid_dereg", "child_spawn", "child_kill", "task_reg", "task_dereg",
     "thresh_reg", "thresh_dereg", "srclen", "mstats", "lookup", "evt_retain", "evt_release", "evt_check", "mod_ref", "mod_unref",
-    "sleep", "errno", "quiesce", "mod_log", "mod_dump", "nameof",
+    "sleep", "errno", "quiesce", "mod_log", "mod_dump", "nameof", "fd_hup", "obs_drop_keep_handle",
 };
 
 typedef struct { int op; long long a[6]; int na; } op_t;
@@ -473,6 +473,7 @@ static long long do_op(op_t *o) {
     case OP_OBS_DROP: { slot_t *s = &SL[SELF(a[0])]; if (s->obs) { m_mem_unrefp((void **)&s->obs); }
         /* a module deregistered by the library itself (context teardown, replacement) leaves the user's own reference to be dropped */
         if (s->handle) { m_mem_unrefp((void **)&s->handle); } break; }
+    case OP_OBS_DROP_KEEP: { slot_t *s = &SL[SELF(a[0])]; if (s->obs) m_mem_unrefp((void **)&s->obs); break; }   /* the handle becomes the only user reference */
     case OP_TB: ret = m_mod_set_tokenbucket(H(a[0]), (uint32_t)a[1], (uint64_t)a[2]); break;
     case OP_BSIZE: ret = m_mod_set_batch_size(H(a[0]), (size_t)a[1]); break;
     case OP_BTIMEOUT: ret = m_mod_set_batch_timeout(H(a[0]), (uint64_t)a[1]); break;
@@ -510,6 +511,11 @@ static long long do_op(op_t *o) {
         if (u->open) { ret = -1003; break; }
         in_harness_io++;
         if (a[1] == 1) { u->rd = u->wr = __real_eventfd(0, EFD_NONBLOCK); u->kind = 1; }
+        else if (a[1] == 2) {   /* a regular file: valid descriptor that the poll layer refuses */
+            char f[64]; snprintf(f, sizeof(f), "/tmp/vfce_file_%d_%lld", getpid(), a[0]);
+            int fd = open(f, O_CREAT | O_RDWR, 0600); unlink(f);
+            if (fd < 0) { ret = -errno; in_harness_io--; break; }
+            u->rd = u->wr = fd; u->kind = 2; }
         else { int p[2]; if (__real_pipe(p) != 0) { ret = -errno; in_harness_io--; break; } fcntl(p[0], F_SETFL, O_NONBLOCK); fcntl(p[1], F_SETFL, O_NONBLOCK); u->rd = p[0]; u->wr = p[1]; u->kind = 0; }
         in_harness_io--;
         u->open = true; u->written = u->drained = 0; u->nodrain = a[2] != 0; u->rd_closed = u->wr_closed = false;
@@ -517,11 +523,13 @@ static long long do_op(op_t *o) {
         ret = u->rd;
         break; }
     case OP_FD_WRITE: { ufd_t *u = &UFD[a[0]]; if (!u->open || u->wr_closed) { ret = -1004; break; } if (u->kind == 1) { uint64_t v = 1; ret = write(u->wr, &v, 8) == 8 ? 0 : -errno; } else { char c = 'x'; ret = write(u->wr, &c, 1) == 1 ? 0 : -errno; } if (ret == 0) u->written++; break; }
+    case OP_FD_HUP: { ufd_t *u = &UFD[a[0]]; if (!u->open || u->kind != 0 || u->wr_closed || u->wr == u->rd) { ret = -1004; break; }
+        __real_close(u->wr); user_fd_closed(u->wr); u->wr_closed = true; break; }
     case OP_FD_CLOSE: { ufd_t *u = &UFD[a[0]]; if (!u->open) { ret = -1004; break; }
         bool now[MAXFD]; snapshot_fds(now);
         /* only close descriptors that are still ours (the library may have auto-closed rd) */
         if (FDL[u->rd].open && FDL[u->rd].owner == FD_USER) { __real_close(u->rd); user_fd_closed(u->rd); }
-        if (u->wr != u->rd && FDL[u->wr].open && FDL[u->wr].owner == FD_USER) { __real_close(u->wr); user_fd_closed(u->wr); }
+        if (u->wr != u->rd && !u->wr_closed && FDL[u->wr].open && FDL[u->wr].owner == FD_USER) { __real_close(u->wr); user_fd_closed(u->wr); }
         u->open = false; break; }
     case OP_FD_REG: { ufd_t *u = &UFD[a[1]]; if (a[1] >= 0 && (!u->open || u->rd_closed)) { ret = -1004; break; } const void *p = ud_ptr(a[3], a[2]); int fd = a[1] >= 0 ? u->rd : (int)a[4];
         ret = m_mod_src_register_fd(H(a[0]), fd, (m_src_flags)a[2], p);
@@ -530,7 +538,7 @@ static long long do_op(op_t *o) {
 #endif
         break; }
     case OP_FD_DEREG: { ufd_t *u = &UFD[a[1]]; if (a[1] >= 0 && (!u->open || u->rd_closed)) { ret = -1004; break; } ret = m_mod_src_deregister_fd(H(a[0]), a[1] >= 0 ? u->rd : (int)a[4]); break; }
-    case OP_TMR_REG: { m_src_tmr_t t = { a[4] == 1 ? CLOCK_REALTIME : CLOCK_MONOTONIC, (uint64_t)a[1] }; const void *p = ud_ptr(a[3], a[2]); ret = m_mod_src_register_tmr(H(a[0]), &t, (m_src_flags)a[2], p);
+    case OP_TMR_REG: { m_src_tmr_t t = { a[4] == 1 ? CLOCK_REALTIME : a[4] == 9 ? (clockid_t)9999 : CLOCK_MONOTONIC, (uint64_t)a[1] }; const void *p = ud_ptr(a[3], a[2]); ret = m_mod_src_register_tmr(H(a[0]), &t, (m_src_flags)a[2], p);
 #ifndef VF_NO_LEDGER
         if (ret < 0 && (a[2] & M_SRC_AUTOFREE) && p && vf_is_live((void *)p)) { vf_on_free = NULL; vf_free((void *)p); vf_on_free = on_free; tr("N ud-returned %lld", a[3]); }
 #endif
